@@ -146,56 +146,101 @@ func c07(g *Gen) {
 // c07options: the tracker's other entry points and options -- symbols whose types.Name carries a Path
 // different from its Package (the key is the Path, the alias is made from the Package), types added
 // through AddType on a tracker whose IsInvalidType rejects some of them (their package name is reserved,
-// nothing is imported) -- mixed with ordinary symbols.  The clauses of C07 are asserted after every step.
+// nothing is imported) -- mixed with ordinary symbols.  After every step the observable state is dumped
+// for the model (C07.ops) and the clauses of C07 are asserted directly (C07.options!).
 func c07options(g *Gen) {
 	n := g.N(300, 6000)
+	type op struct {
+		kind      string // sym, type, invalid
+		pkg, path string
+		builtin   bool
+	}
 	for i := 0; i < n; i++ {
 		local := g.Pick(c07Locals)
-		tr := generator.NewImportTrackerForPackage(local)
-		tr.IsInvalidType = func(t *types.Type) bool { return t.Name.Name == "Invalid" }
-		first := map[string]string{} // key -> alias when first seen
-		var keys []string
-		reserved := map[string]bool{}
-		var vendored [][2]string
-		var problems, desc []string
 		cls := map[string]bool{"tracker-options": true}
-		for step, k := 0, 3+g.R.Intn(8); step < k && len(problems) == 0; step++ {
+		// the operations first (the model's dump lists every key of the case from the first step on)
+		var ops []op
+		var vendored [][2]string
+		for step, k := 0, 3+g.R.Intn(8); step < k; step++ {
 			pkg := g.Pick(c07Paths)
-			key := pkg
 			switch g.R.Intn(5) {
 			case 0: // a vendored copy: same Package, another Path (often one that was added before)
-				key = g.Pick([]string{"vendor/", "example.com/vendor/", "third_party/"}) + pkg
+				key := g.Pick([]string{"vendor/", "example.com/vendor/", "third_party/"}) + pkg
 				if len(vendored) > 0 && g.Chance(0.5) {
 					v := vendored[g.R.Intn(len(vendored))]
 					pkg, key = v[0], v[1]
 					cls["name-with-path-again"] = true
 				}
 				vendored = append(vendored, [2]string{pkg, key})
-				tr.AddSymbol(types.Name{Package: pkg, Path: key, Name: "T"})
-				desc = append(desc, "sym "+pkg+" @ "+key)
+				ops = append(ops, op{kind: "sym", pkg: pkg, path: key})
 				cls["name-with-path"] = true
 			case 1: // an invalid type: reserves its package NAME (as written in Name.Package)
 				leaf := pkg[strings.LastIndex(pkg, "/")+1:]
-				if leaf == "" || leaf == local {
+				if leaf == "" {
 					continue
 				}
-				tr.AddType(&types.Type{Name: types.Name{Package: leaf, Name: "Invalid"}, Kind: []types.Kind{types.Struct, types.Builtin, types.Alias}[g.R.Intn(3)]})
-				desc = append(desc, "invalid "+leaf)
+				ops = append(ops, op{kind: "invalid", pkg: leaf, builtin: g.Chance(0.3)})
 				cls["invalid-type"] = true
-				if _, ok := tr.PathOf(leaf); ok {
-					if p, _ := tr.PathOf(leaf); p == "" {
-						reserved[leaf] = true
-					}
-				}
-				continue
 			case 2:
-				tr.AddType(&types.Type{Name: types.Name{Package: pkg, Name: "T"}, Kind: types.Struct})
-				desc = append(desc, "type "+pkg)
+				ops = append(ops, op{kind: "type", pkg: pkg})
 			default:
-				tr.AddSymbol(types.Name{Package: pkg, Name: "T"})
-				desc = append(desc, "sym "+pkg)
+				ops = append(ops, op{kind: "sym", pkg: pkg})
 			}
-			if pkg == local || pkg == "" {
+		}
+		var universe, extra, opsS, desc []string
+		seenU, seenX := map[string]bool{}, map[string]bool{}
+		for _, o := range ops {
+			switch o.kind {
+			case "invalid":
+				if !seenX[o.pkg] {
+					seenX[o.pkg] = true
+					extra = append(extra, o.pkg)
+				}
+				opsS = append(opsS, tag("invalid", atom(o.pkg), boolS(o.builtin)))
+				desc = append(desc, "invalid "+o.pkg)
+			default:
+				key := o.path
+				if key == "" {
+					key = o.pkg
+				}
+				if !seenU[key] {
+					seenU[key] = true
+					universe = append(universe, key)
+				}
+				opsS = append(opsS, tag("sym", atom(o.pkg), atom(o.path)))
+				desc = append(desc, o.kind+" "+o.pkg+" @ "+o.path)
+			}
+		}
+		if !seenU[local] {
+			universe = append(universe, local)
+		}
+		tr := generator.NewImportTrackerForPackage(local)
+		tr.IsInvalidType = func(t *types.Type) bool { return t.Name.Name == "Invalid" }
+		first := map[string]string{} // key -> alias when first seen
+		var keys, problems, dumps []string
+		reserved := map[string]bool{}
+		for _, o := range ops {
+			key := o.path
+			if key == "" {
+				key = o.pkg
+			}
+			switch o.kind {
+			case "invalid":
+				kind := types.Struct
+				if o.builtin {
+					kind = types.Builtin
+				}
+				tr.AddType(&types.Type{Name: types.Name{Package: o.pkg, Name: "Invalid"}, Kind: kind})
+				if p, ok := tr.PathOf(o.pkg); ok && p == "" {
+					reserved[o.pkg] = true
+				}
+				key = ""
+			case "type":
+				tr.AddType(&types.Type{Name: types.Name{Package: o.pkg, Name: "T"}, Kind: types.Struct})
+			default:
+				tr.AddSymbol(types.Name{Package: o.pkg, Path: o.path, Name: "T"})
+			}
+			if o.pkg == local || o.pkg == "" {
 				key = ""
 			}
 			if key != "" {
@@ -203,6 +248,24 @@ func c07options(g *Gen) {
 					first[key] = tr.LocalNameOf(key)
 					keys = append(keys, key)
 				}
+			}
+			// the dump for the model
+			var names, pathof []string
+			for _, u := range universe {
+				a := tr.LocalNameOf(u)
+				names = append(names, atom(a))
+				if a != "" {
+					pth, ok := tr.PathOf(a)
+					pathof = append(pathof, list(atom(a), opt(ok, atom(pth))))
+				}
+			}
+			for _, x := range extra {
+				pth, ok := tr.PathOf(x)
+				pathof = append(pathof, list(atom(x), opt(ok, atom(pth))))
+			}
+			dumps = append(dumps, list(list(names...), list(pathof...), atoms(tr.ImportLines())))
+			if len(problems) > 0 {
+				continue
 			}
 			// the clauses
 			seen := map[string]string{}
@@ -234,15 +297,13 @@ func c07options(g *Gen) {
 			if got := tr.ImportLines(); strings.Join(got, "\n") != strings.Join(want, "\n") {
 				problems = append(problems, fmt.Sprintf("ImportLines = %q, want %q", got, want))
 			}
-			if tr.LocalNameOf(local) != "" {
-				problems = append(problems, "the output package got a local name")
-			}
 		}
 		var cl []string
 		for c := range cls {
 			cl = append(cl, c)
 		}
 		sort.Strings(cl)
+		g.Emit("C07.ops", list(num(c07ver), atom(local), list(opsS...)), list(dumps...), cl...)
 		g.Emit("C07.options!", list(atom(local), atoms(desc), atom(strings.Join(problems, "; "))), boolS(len(problems) == 0), cl...)
 	}
 }
